@@ -197,6 +197,8 @@ def splice_literals(t: Any, _memo: Optional[Dict[int, Any]] = None) -> Any:
             else:
                 out.append(x)
         r = (r[0], tuple(out))
+    if len(r) == 3 and r[0] == "concat" and isinstance(r[1], tuple) and isinstance(r[2], tuple) and r[1][:1] == ("list",) and r[2][:1] == ("list",):
+        r = ("list", tuple(r[1][1]) + tuple(r[2][1]))  # [a] + [b, c] is [a, b, c]
     _memo[k] = (t, r)
     return r
 
@@ -576,12 +578,22 @@ class FuncAnalysis:
             if self._rd_in.get(cn, {}).get(name) != frozenset([d]):
                 continue
             loop = None
+            nest = []  # the for-loops around the append, innermost first
             for a in ancestors(c):
                 if isinstance(a, (ast.For,)):
-                    loop = a
+                    nest.append(a)
+                    continue
+                if isinstance(a, (ast.While, ast.FunctionDef, ast.AsyncFunctionDef, ast.Lambda, ast.ListComp, ast.GeneratorExp, ast.Try, ast.With)):
                     break
-                if isinstance(a, (ast.While, ast.FunctionDef, ast.AsyncFunctionDef, ast.Lambda, ast.ListComp, ast.GeneratorExp)):
-                    break
+            if nest:
+                # the outermost loop that still lies after the list's definition and wholly before `at`
+                loop = nest[0]
+                for cand in nest[1:]:
+                    cl = cfg.node_of(cand)
+                    if cfg.dominates(d.node, cl) and cl is not d.node and not (at.stmt is not None and any(x is at.stmt for x in ast.walk(cand))):
+                        loop = cand
+                    else:
+                        break
             if cn is at:
                 continue
             if loop is None:
@@ -612,8 +624,12 @@ class FuncAnalysis:
                 except AnalysisError:
                     ct = ("top", "cond")
                 conds.append(_cond(ct, pol))
-            it = self._t(loop.iter, ln, {}, depth)
-            parts.append(("comp", "ListComp", self._t(c.args[0], cn, {}, depth), ((it, tuple(conds)),)))
+            chain = [l_ for l_ in reversed(nest) if l_ is loop or any(x is l_ for x in ast.walk(loop))]
+            gens = []
+            for l_ in chain:
+                gens.append((self._t(l_.iter, cfg.node_of(l_), {}, depth), ()))
+            gens[-1] = (gens[-1][0], tuple(conds))  # all conditions are attached to the innermost generator
+            parts.append(("comp", "ListComp", self._t(c.args[0], cn, {}, depth), tuple(gens)))
         t = base
         for p in parts:
             if t == ("list", ()):
@@ -675,10 +691,20 @@ class FuncAnalysis:
     def _global_const(self, t: Term) -> Term:
         """('global', 'pkg.mod.NAME') bound to a literal at module level -> that constant."""
         if t[0] == "global":
-            mod, _, nm = t[1].rpartition(".")
-            mi = self.model.modules.get(mod)
-            if mi is not None and nm in mi.assigns and isinstance(mi.assigns[nm], ast.Constant):
-                return ("const", mi.assigns[nm].value)
+            target = t[1]
+            for _ in range(4):  # follow re-exports: `from ._x import NAME` in the module named by the term
+                mod, _, nm = target.rpartition(".")
+                mi = self.model.modules.get(mod)
+                if mi is None:
+                    break
+                if nm in mi.assigns:
+                    if isinstance(mi.assigns[nm], ast.Constant):
+                        return ("const", mi.assigns[nm].value)
+                    break
+                if nm in mi.imports:
+                    target = mi.imports[nm]
+                    continue
+                break
         return t
 
     def _apply_stores(self, t: Term, name: str, d: "Def", at: CNode, depth: int) -> Term:
